@@ -12,8 +12,8 @@ import itertools
 from typing import Any, Callable, Dict, List, Optional, Tuple
 
 from . import terms as T
-from .progdb import AnalysisError, Module, ProgramDB
-from .values import (Columns, ClassRef, Each, EnumRef, ExtMod, Frame, FuncRef, GroupBy, Obj, PyTuple, Ser, to_term)
+from .progdb import AnalysisError, Module, ProgramDB, walk_no_nested
+from .values import (Columns, ClassRef, Each, EnumRef, ExtMod, Frame, FuncRef, GenCall, GroupBy, Obj, PyTuple, Ser, to_term)
 
 EXT_MODULES = {"pd": "pd", "pandas": "pd", "np": "np", "numpy": "np", "math": "math", "nx": "nx", "networkx": "nx",
                "re": "re", "os": "os", "json": "json", "gzip": "gzip", "time": "time", "sys": "sys", "logging": "logging",
@@ -176,7 +176,7 @@ class Interp:
         return ("truthy", t)
 
     # ------------------------------------------------------------------ calls
-    def call_function(self, ref: FuncRef, pos: List[Any], kw: Dict[str, Any], node: Optional[ast.AST], top: bool = False) -> Any:
+    def call_function(self, ref: FuncRef, pos: List[Any], kw: Dict[str, Any], node: Optional[ast.AST], top: bool = False, on_yield=None) -> Any:
         f = ref.node
         if isinstance(f, ast.Lambda):
             params = [a.arg for a in f.args.args]
@@ -221,6 +221,7 @@ class Interp:
         if a.kwarg and a.kwarg.arg not in env:
             env[a.kwarg.arg] = {}
         act = Activation(ref.mod, f, env, ref.closure, ref.qualname)
+        act.on_yield = on_yield
         self.stack.append(act)
         try:
             self.exec_block(f.body)
@@ -461,8 +462,79 @@ class Interp:
         self.log("while-once", st)
         self._loop_once(st.body, None, None, st)
 
+    # ------------------------------------------------------------------ generators (fusion of producer and consumer)
+    @staticmethod
+    def is_generator(f: ast.AST) -> bool:
+        return isinstance(f, (ast.FunctionDef, ast.AsyncFunctionDef)) and any(isinstance(n, (ast.Yield, ast.YieldFrom)) for n in walk_no_nested(f))
+
+    def run_generator(self, gen: GenCall, on_yield) -> None:
+        """run the generator's body; every `yield v` calls on_yield(v) with the generator's frames taken off the stack"""
+        base = len(self.stack)
+
+        def handler(v):
+            frames = self.stack[base:]
+            del self.stack[base:]
+            try:
+                on_yield(v)
+            finally:
+                self.stack.extend(frames)
+        self.call_function(gen.ref, gen.pos, gen.kw, None, on_yield=handler)
+
+    def materialise(self, gen: GenCall) -> list:
+        """the values a generator yields, as a list (values yielded inside a symbolically executed loop become Each markers)"""
+        out = []
+        depth0 = self.run.loop_depth
+        self.run_generator(gen, lambda v: out.append(Each(v) if self.run.loop_depth > depth0 else v))
+        return out
+
+    def ex_Yield(self, e):
+        v = self.eval(e.value) if e.value is not None else None
+        h = getattr(self.stack[-1], "on_yield", None) if self.stack else None
+        if h is None:
+            raise AnalysisError(f"yield outside an iterated generator (line {getattr(e, 'lineno', 0)})")
+        h(v)
+        return None
+
+    def ex_YieldFrom(self, e):
+        h = getattr(self.stack[-1], "on_yield", None) if self.stack else None
+        if h is None:
+            raise AnalysisError(f"yield from outside an iterated generator (line {getattr(e, 'lineno', 0)})")
+        src = self.eval(e.value)
+        if isinstance(src, GenCall):
+            self.run_generator(src, h)
+            return None
+        seq = self._concrete_seq(src)
+        if seq is not None:
+            for v in seq:
+                h(v)
+            return None
+        self.run.loop_depth += 1
+        try:
+            h(self.pm.iter_element(src, to_term(src)))
+        finally:
+            self.run.loop_depth -= 1
+        return None
+
     def st_For(self, st):
         it = self.eval(st.iter)
+        if isinstance(it, GenCall):
+            class _Stop(Exception):
+                pass
+
+            def body(v):
+                self.assign(st.target, v, st, symbolic_elem=True)
+                try:
+                    self.exec_block(st.body)
+                except _Continue:
+                    pass
+                except _Break:
+                    raise _Stop()
+            try:
+                self.run_generator(it, body)
+            except _Stop:
+                return
+            self.exec_block(st.orelse)
+            return
         seq = self._concrete_seq(it)
         if seq is not None and len(seq) <= 16:
             try:
@@ -757,6 +829,8 @@ class Interp:
     def _comp(self, e, kind):
         gen = e.generators[0]
         it = self.eval(gen.iter)
+        if isinstance(it, GenCall):
+            it = self.materialise(it)
         seq = self._concrete_seq(it) if len(e.generators) == 1 else None
         act = self.stack[-1]
         inner = Activation(act.mod, act.func, {}, act, act.qualname)
